@@ -85,6 +85,9 @@ enum Case {
   /// (b)/(c): document kind (0 CoreDocument, 1 IotaDocument), initial endpoints (0 fresh, 1 legacy, 2 run-container
   /// stream + dense set — see `init_members`), universe id, ops (service, revoke?, batch id — see `batch`)
   Hist { kind: u8, init: u8, uni: u8, ops: Vec<(u8, bool, u8)> },
+  /// (b') dense universe base..base+5: service rev-a starts with the members selected by the bits of `start`, then ONE
+  /// revoke (or unrevoke) of the ordered batch `batch` (offsets from `base`, duplicates allowed) through the document
+  Dense { kind: u8, base: u32, start: u8, revoke: bool, batch: Vec<u8> },
 }
 
 // ------------------------------------------------------------------ harness-side codecs (boring on purpose)
@@ -310,7 +313,7 @@ fn elems_of(case: &Case) -> (&'static str, Vec<u32>) {
       v
     }
     Case::Holes { span, step } => (0..*span).filter(|i| i % step != 0).collect(),
-    Case::Hist { .. } => unreachable!("not a set case"),
+    Case::Hist { .. } | Case::Dense { .. } => unreachable!("not a set case"),
   };
   v.sort_unstable();
   v.dedup();
@@ -322,6 +325,7 @@ fn elems_of(case: &Case) -> (&'static str, Vec<u32>) {
     Case::Runs { .. } => "runs",
     Case::Holes { .. } => "holes",
     Case::Hist { .. } => "hist",
+    Case::Dense { .. } => "dense",
   };
   (fam, v)
 }
@@ -1772,8 +1776,55 @@ fn eval(ctx: &Ctx, case: &Case) {
       }
       col.drain_into(ctx, "history-replay");
     }
+    Case::Dense { kind, base, start, revoke, batch } => eval_dense(ctx, case, *kind, *base, *start, *revoke, batch),
     _ => eval_set(ctx, case),
   }
+}
+
+/// Every state of a dense 5-index universe x every ordered batch: all transitions of the closure over that universe
+/// (every subset is a start state), without the per-state extras of (b)/(c).
+fn eval_dense(ctx: &Ctx, case: &Case, kind: u8, base: u32, start: u8, revoke: bool, batch: &[u8]) {
+  let did = if kind == 0 { CORE_DID } else { IOTA_DID };
+  let before: BTreeSet<u32> = (0..5u32).filter(|b| (start >> b) & 1 == 1).map(|b| base + b).collect();
+  let members: Vec<u32> = before.iter().copied().collect();
+  let mut doc = real_doc(kind, doc_json(did, &[library_text(did, SVC[0], &members), library_text(did, SVC[1], &[])]));
+  let idx: Vec<u32> = batch.iter().map(|b| base + *b as u32).collect();
+  let op = if revoke { "revoke_credentials" } else { "unrevoke_credentials" };
+  let q = svc_url(did, SVC[0]);
+  match guard(|| doc.apply(&q, revoke, &idx)) {
+    Err(p) => return ctx.violation(&format!("{op}|{}", p.key()), &p.msg, case),
+    Ok(Err(e)) => return ctx.violation(&format!("{op}|permitted-op-rejected"), &format!("{e}; start {members:?}, batch {idx:?}"), case),
+    Ok(Ok(())) => {}
+  }
+  let mut want = before.clone();
+  for i in &idx {
+    if revoke {
+      want.insert(*i);
+    } else {
+      want.remove(i);
+    }
+  }
+  let want: Vec<u32> = want.into_iter().collect();
+  // indices that must not be members afterwards: the rest of the universe and its two neighbours
+  let mut around: Vec<u32> = (0..=5u32).map(|b| base + b).collect();
+  if base > 0 {
+    around.push(base - 1);
+  }
+  let probes: Vec<u32> = around.iter().copied().filter(|i| !want.contains(i)).collect();
+  match doc_set_diff(&doc, SVC[0], &want, &probes, &format!("{op}|service-no-longer-decodes")) {
+    Err((k, w)) => ctx.violation(&k, &w, case),
+    Ok(Some(d)) => {
+      ctx.violation(&format!("{op}|membership|differs-from-model"), &format!("start {members:?}, batch {idx:?}: {d}"), case)
+    }
+    Ok(None) => {}
+  }
+  match doc_set_diff(&doc, SVC[1], &[], &around, &format!("{op}|other-service-no-longer-decodes")) {
+    Err((k, w)) => ctx.violation(&k, &w, case),
+    Ok(Some(d)) => ctx.violation(&format!("{op}|membership|other-service-changed"), &d, case),
+    Ok(None) => {}
+  }
+  ctx.outcome(&format!("dense:{op}:{}", if want == members { "membership-unchanged" } else { "membership-changed" }));
+  ctx.distinct(&(11u8, kind, base, start, revoke, batch.to_vec()));
 }
 
 fn run_sets(ctx: &Ctx, name: &str, cases: Vec<Case>) {
@@ -1884,6 +1935,35 @@ fn generate(ctx: &Ctx) {
       }
     }
   });
+  // (b') dense universes: every subset of 5 consecutive indices x revoke/unrevoke x every ordered batch of length 1..=3,
+  // at 0 and across the container boundary 65535/65536
+  {
+    let mut dense = Vec::new();
+    let mut batches: Vec<Vec<u8>> = Vec::new();
+    for a in 0..5u8 {
+      batches.push(vec![a]);
+      for b in 0..5u8 {
+        batches.push(vec![a, b]);
+        for c in 0..5u8 {
+          batches.push(vec![a, b, c]);
+        }
+      }
+    }
+    for kind in 0..2u8 {
+      for base in [0u32, 65_534] {
+        for start in 0..32u8 {
+          for revoke in [true, false] {
+            for b in &batches {
+              dense.push(Case::Dense { kind, base, start, revoke, batch: b.clone() });
+            }
+          }
+        }
+      }
+    }
+    let n = dense.len();
+    run_sets(ctx, "dense universe, single batch from every state", dense);
+    ctx.bound("dense_universe", json!({"bases": [0, 65534], "indices": 5, "start_states": 32, "ordered_batches_of_length_1_to_3": batches.len(), "cases": n}));
+  }
   ctx.bound("max_set_size", max);
   ctx.bound("subset_universe", U12);
   ctx.bound("history_universe", UNI4);
